@@ -13,10 +13,16 @@ Op language (a case = everything from a `reset` to the next one):
                                        owner of the front is kept busy: handshake, ack and the messages (all items
                                        have c=i) are read by the session's reader BEFORE the owner runs AddSession;
                                        then the owner is released (repaired defect D20)
+    hs c=<i>                           client i sends a Handshake packet again on its working connection: the session
+                                       goes back to StatusHandshake (session.go processPacket); responses of requests in
+                                       flight are still written; data packets are IGNORED by the reader until …
+    ack c=<i>                          … the next HandshakeAck makes it working again
+    wrap k=<n>                         (only right after reset) the front's service-request counter is set n below
+                                       MaxReqId, so the next forwarded requests are numbered across the wrap
     adv                                5 s of virtual time pass
     flush                              45 s pass (every handler delay and the 30 s forward timeout are over)
 
-Observation of reqs/pipe/adv/flush: `r=<a>,<b>,… i=<x>,<y>,…` — `r` the multiset (sorted) of
+Observation of reqs/pipe/adv/flush (hs/ack/wrap: `ok`): `r=<a>,<b>,… i=<x>,<y>,…` — `r` the multiset (sorted) of
 `<c>:resp:<id>:<errflag>:<payload hex>` the clients read during the op, `i` the multiset (sorted)
 of handler invocations `<service>:<method>:<v>` logged during the op.  reset/bind: `ok`.
 
@@ -84,6 +90,8 @@ def hexOfString (s : String) : String := hexOfBytes (s.toUTF8.toList.map UInt8.t
 def showWire (x : Nat × Nat × Result) : String :=
   match x.2.2 with
   | .error => toString x.1 ++ ":resp:" ++ toString x.2.1 ++ ":1:"
+  | .blank => toString x.1 ++ ":resp:" ++ toString x.2.1 ++ ":0:"
+  | .unser => toString x.1 ++ ":resp:" ++ toString x.2.1 ++ ":unser:"
   | .data o _ m v => toString x.1 ++ ":resp:" ++ toString x.2.1 ++ ":0:" ++ hexOfString (jsonOf o m v)
 
 def showInv (x : String × String × String × Nat) : String :=
@@ -97,6 +105,8 @@ def showObs (rs : List (Nat × Nat × Result)) (is : List (String × String × S
 structure MState where
   st : St := St.init
   keys : List (Nat × String) := []
+  /-- connections that re-sent a handshake and have not acked yet: their data packets are not read -/
+  hsing : List Nat := []
 
 def MState.sess (m : MState) (c : Nat) (added : Bool := true) : Sess :=
   ⟨c, (m.keys.find? (·.1 = c)).map (·.2), added⟩
@@ -117,7 +127,17 @@ def modelStep (m : MState) (line : String) : MState × String :=
     | some c, some t => (m.bind c (if t = "-" then "" else t), "ok")
     | _, _ => (m, "bad-op")
   | some "reqs" =>
-    applyOps m ((parseItems ws).map fun it => .req (m.sess it.c) ⟨it.id, it.route, it.pay.toModel⟩)
+    applyOps m (((parseItems ws).filter fun it => ¬ m.hsing.contains it.c).map fun it =>
+      .req (m.sess it.c) ⟨it.id, it.route, it.pay.toModel⟩)
+  | some "hs" =>
+    match kvNat ws "c" with
+    | some c => ({ m with hsing := c :: m.hsing.filter (· ≠ c) }, "ok")
+    | none => (m, "bad-op")
+  | some "ack" =>
+    match kvNat ws "c" with
+    | some c => ({ m with hsing := m.hsing.filter (· ≠ c) }, "ok")
+    | none => (m, "bad-op")
+  | some "wrap" => (m, "ok")
   | some "pipe" =>
     applyOps m ((parseItems ws).map fun it => .req (m.sess it.c false) ⟨it.id, it.route, it.pay.toModel⟩)
   | some "adv" => applyOps m [.adv 5000]
@@ -131,6 +151,8 @@ inductive Expect
   | data (svc method : String) (v : Nat)          -- exactly these bytes, from this service
   | error                                          -- an error response
   | dataOrError (svc method : String) (v : Nat)    -- a forwarded handler slower than the request timeout
+  | errorOrBlank                                   -- a forwarded handler whose result cannot be marshalled:
+                                                   -- the property asks for an error, the code relays an empty success
   deriving DecidableEq
 
 structure Outst where
@@ -156,8 +178,9 @@ structure SState where
   outst : List Outst := []
   answered : List (Nat × Nat) := []
   sent : List Sent := []
+  hsing : List Nat := []
 
-def zooMethods : List String := ["echo", "fail", "boom", "slow", "late", "tell"]
+def zooMethods : List String := ["echo", "fail", "boom", "slow", "late", "tell", "nan"]
 
 /-- the service a route's type names for this client (the tie's routing rules, stated directly) -/
 def namedService (keys : List (Nat × String)) (c : Nat) (t : String) : Option String :=
@@ -187,6 +210,7 @@ def classify (keys : List (Nat × String)) (it : Item) : Expect × String × Opt
         if ¬ known then (.error, "unknown-method", some svc, false)
         else if m = "tell" then (.error, "notify-method", some svc, true)
         else if m = "fail" ∨ m = "boom" then (.error, "handler-failure", some svc, true)
+        else if m = "nan" then ((if t = "gate" then .error else .errorOrBlank), "handler-failure", some svc, true)
         else if m = "late" ∧ t ≠ "gate" then (.dataOrError svc m v, "slow-handler", some svc, true)
         else (.data svc m v, "", some svc, true)
   | _ => (.error, "no-target", none, false)
@@ -244,6 +268,9 @@ def checkResp (st : SState) (w : Nat × String × Nat × Bool × String) : SStat
       match o.expect with
       | .data svc m v => (st', okData svc m v)
       | .dataOrError svc m v => (st', if err then none else okData svc m v)
+      | .errorOrBlank =>
+        if err ∨ hex = "" then (st', none)
+        else (st', some s!"C02/reply-altered c{c} id={id} route={o.route} ({o.cls}): data {hex} instead of an error response")
       | .error =>
         if err then (st', none)
         else if o.cls = "no-target" then
@@ -271,15 +298,20 @@ def firstSome : List (Option String) → Option String
 finding D19 -/
 def pickViolation (vs : List (Option String)) : Option String :=
   let all := vs.filterMap id
-  match all.find? (fun t => ¬ t.startsWith "C02/request-id-truncated") with
+  -- two responses for one request in one observation arrive sorted, not in wire order: name the duplicate
+  match all.find? (fun t => t.startsWith "C02/response-duplicated") with
   | some t => some t
-  | none => all.head?
+  | none =>
+    match all.find? (fun t => ¬ t.startsWith "C02/request-id-truncated") with
+    | some t => some t
+    | none => all.head?
 
 def checkFlush (st : SState) : List (Option String) :=
   (st.outst.map fun o =>
     if idWrap ≤ o.id ∧ o.id % idWrap = 0 then
       some s!"C02/request-id-truncated c{o.c} id={o.id} route={o.route} was handled as a notification (id mod 2^32 = 0) and never answered"
-    else if o.early then
+    -- D20 could only lose the reply of a FORWARDED request with a reachable target
+    else if o.early ∧ o.cls ≠ "no-target" ∧ ¬ o.route.startsWith "gate." then
       some s!"C02/pipelined-request-unanswered c{o.c} id={o.id} route={o.route}: sent right behind the handshake, before the front had registered the session; got no response within 45 s"
     else
       let sfx := if o.cls = "no-target" then "-no-target" else if o.cls = "notify-method" then "-notify-method" else ""
@@ -317,7 +349,8 @@ def observe (st : SState) (obs : String) (isFlush : Bool) : SState × String :=
     | none => (st2, "ok")
 
 def specReqs (st : SState) (ws : List String) (obs : String) (early : Bool) : SState × String :=
-  let st' := (parseItems ws).foldl (fun (st : SState) it =>
+  -- data packets on a connection that is re-handshaking are ignored by the session's reader
+  let st' := ((parseItems ws).filter fun it => ¬ st.hsing.contains it.c).foldl (fun (st : SState) it =>
     let (ex, cls, tgt, deliverable) := classify st.keys it
     let desc := s!"c{it.c} id={it.id} route={it.route}"
     let st := match payV it.pay with
@@ -338,6 +371,14 @@ def specStep (st : SState) (line : String) : SState × String :=
       match kvNat ws "c", kv ws "to" with
       | some c, some t => ({ st with keys := (c, if t = "-" then "" else t) :: st.keys.filter (·.1 ≠ c) }, "ok")
       | _, _ => (st, "ok")
+    | some "hs" =>
+      match kvNat ws "c" with
+      | some c => ({ st with hsing := c :: st.hsing.filter (· ≠ c) }, "ok")
+      | none => (st, "ok")
+    | some "ack" =>
+      match kvNat ws "c" with
+      | some c => ({ st with hsing := st.hsing.filter (· ≠ c) }, "ok")
+      | none => (st, "ok")
     | some "reqs" => specReqs st ws obs false
     | some "pipe" => specReqs st ws obs true
     | some "adv" => observe st obs false
